@@ -69,6 +69,10 @@ struct ModeConn {
     acked_at: BTreeMap<(u32, u16), u64>,
     passed_at: BTreeMap<u32, u64>,
     desync: bool,
+    /// what the receiver has reported, computed from the ack frames the sender read (not from
+    /// the sender's own bookkeeping): window base, and one past the newest packet id in use
+    reported_base: Option<u32>,
+    next_id: Option<u32>,
 }
 
 pub struct ModeOracle {
@@ -120,6 +124,10 @@ impl Oracle for ModeOracle {
                     T::PacketEmitted { sequence_id, len, .. } => match c.queue.pop_front() {
                         Some((mode, submit_call, l)) if l == *len => {
                             c.emitted.insert(*sequence_id, PktInfo { mode, submit_call });
+                            if c.reported_base.is_none() {
+                                c.reported_base = Some(*sequence_id);
+                            }
+                            c.next_id = Some((*sequence_id + 1) & 0xFFFFF);
                         }
                         _ => c.desync = true,
                     },
@@ -131,21 +139,37 @@ impl Oracle for ModeOracle {
                             }
                         }
                     }
-                    T::PacketBaseAdvanced { old, new } => {
-                        let mut id = *old;
-                        let mut n = 0;
-                        while id != *new && n < 5000 {
-                            c.passed_at.entry(id).or_insert(*call);
-                            id = (id + 1) & 0xFFFFF;
-                            n += 1;
-                            self.passed_packets += 1;
-                        }
-                    }
                     _ => (),
                 }
                 if c.desync {
                     return viol(prop, "mode_model_desync", format!("endpoint {}: trace events do not match the send queue model", ep), *call);
                 }
+            }
+            Rec::Consumed { call, ep, src: Some(src), bytes, .. } => {
+                // "the receiver has reported moving past the packet": an ack frame read by the
+                // sender whose packet window base lies beyond the packet, within what was sent
+                if bytes.first() != Some(&FRAME_ACK) || matches!(cx.plan.endpoints[*src].kind, EndpointKind::Raw) {
+                    return None;
+                }
+                let Some(uv::Frame::AckFrame(f)) = uv::Frame::read(bytes) else { return None };
+                let Some(c) = self.conns.get_mut(&(*ep, *src)) else { return None };
+                let (Some(base), Some(next)) = (c.reported_base, c.next_id) else { return None };
+                let b = f.packet_window_base_id;
+                if b > 0xFFFFF {
+                    return None;
+                }
+                let delta = b.wrapping_sub(base) & 0xFFFFF;
+                let span = next.wrapping_sub(base) & 0xFFFFF;
+                if delta == 0 || delta > span {
+                    return None;
+                }
+                let mut id = base;
+                while id != b {
+                    c.passed_at.entry(id).or_insert(*call);
+                    id = (id + 1) & 0xFFFFF;
+                    self.passed_packets += 1;
+                }
+                c.reported_base = Some(b);
             }
             Rec::Wire(w) => {
                 let Some(dst) = w.dst else { return None };
@@ -444,7 +468,7 @@ struct RateConn {
     ceiling: u64,
     prefix: Vec<u64>,
     rtt_ns: u64,
-    /// estimates held after each of the last three calls into the sender (the bucket's cap at a
+    /// estimates held after each of the last three step() calls of the sender (the bucket's cap at a
     /// window's start was computed from the estimate held before the latest feedback)
     rtt_recent: [u64; 3],
     max_rtt_ns: u64,
@@ -459,6 +483,8 @@ pub struct RateOracle {
     /// per endpoint: (call index, local ns, gap to the previous step in ns) of every step()
     steps: BTreeMap<usize, Vec<(u64, u64, u64)>>,
     max_gap_ns: BTreeMap<usize, u64>,
+    /// endpoints whose call in progress is a step()
+    in_step: std::collections::BTreeSet<usize>,
     /// first violation of the stated bound that stays inside the late-refill envelope (known
     /// finding); reported at the end of the run unless something worse turns up
     soft: Option<Violation>,
@@ -472,7 +498,7 @@ pub struct RateOracle {
 
 impl RateOracle {
     pub fn new(property: &'static str) -> Self {
-        Self { property, conns: BTreeMap::new(), index: ConnIndex::default(), steps: BTreeMap::new(), max_gap_ns: BTreeMap::new(), soft: None, frames_checked: 0, windows_checked: 0, max_fill_permille: 0, rate_limited_runs: false, x_checks: 0, soft_hits: 0 }
+        Self { property, conns: BTreeMap::new(), index: ConnIndex::default(), steps: BTreeMap::new(), max_gap_ns: BTreeMap::new(), in_step: Default::default(), soft: None, frames_checked: 0, windows_checked: 0, max_fill_permille: 0, rate_limited_runs: false, x_checks: 0, soft_hits: 0 }
     }
 
     fn ceiling(cx: &Cx, ep: usize, peer: usize) -> Option<u64> {
@@ -512,6 +538,10 @@ impl Oracle for RateOracle {
                 v.push((*call, *local_ns, gap));
                 let m = self.max_gap_ns.entry(*ep).or_insert(0);
                 *m = (*m).max(gap);
+                self.in_step.insert(*ep);
+            }
+            Rec::CallEnd { ep: Some(ep), .. } => {
+                self.in_step.remove(ep);
             }
             Rec::Wire(w) => {
                 let Some(dst) = w.dst else { return None };
@@ -618,7 +648,11 @@ impl Oracle for RateOracle {
                     let c = self.conns.entry((*ep, peer)).or_default();
                     // the estimate "held between emissions": keep the larger of before/after
                     c.rtt_ns = rtt_ns;
-                    c.rtt_recent = [c.rtt_recent[1], c.rtt_recent[2], rtt_ns];
+                    // the cap is recomputed by step() only: remember the estimates held after the
+                    // last three steps (calls in between - send, flush - do not refill)
+                    if self.in_step.contains(ep) {
+                        c.rtt_recent = [c.rtt_recent[1], c.rtt_recent[2], rtt_ns];
+                    }
                     if let Some(last) = c.frames.last_mut() {
                         if last.2 < rtt_ns {
                             last.2 = rtt_ns;
